@@ -459,4 +459,5 @@ def report(v, results, viol, props, tlcres, n_out, n_states):
              "results": {t: x["cls"] for t, x in o["results"].items() if isinstance(x, dict)},
              "final": o["final"]})
     if any(r["nondet"] for r in results):
-        v.machinery("replay of a schedule prefix diverged (harness nondeterminism)")
+        v.incomplete("replay of a schedule prefix diverged (harness nondeterminism) in %s"
+                     % ", ".join(r["scenario"]["name"] for r in results if r["nondet"])[:400])
